@@ -130,29 +130,35 @@ def main(argv=None):
     nw = a.workers or min(16, os.cpu_count() or 4)
     timeout = getattr(mod, "JOB_TIMEOUT", {}).get(tier, 1500 if tier == "quick" else 7200)
 
-    # determinism + mechanism-reached probe: job 0 again, traced
-    probe = dict(jobs[0])
-    probe["trace"] = True
+    # determinism + mechanism-reached probes: the first job of every sub-space again, traced
+    probes = []
+    seen_sub = set()
+    for j in jobs:
+        if j.get("sub") not in seen_sub:
+            seen_sub.add(j.get("sub"))
+            pj = dict(j)
+            pj["trace"] = True
+            probes.append(pj)
     with ThreadPoolExecutor(max_workers=nw) as ex:
-        fprobe = ex.submit(run_worker, prop, probe, timeout)
+        fprobes = [ex.submit(run_worker, prop, pj, timeout) for pj in probes]
         results = list(ex.map(lambda j: run_worker(prop, j, timeout), jobs))
-        rprobe = fprobe.result()
+        rprobes = [f.result() for f in fprobes]
 
     broken = []
-    for r in results + [rprobe]:
+    for r in results + rprobes:
         if "error" in r:
             broken.append(f"job {r['job'].get('sub')}#{r['job'].get('chunk')}: {r['error']}")
     if not broken:
-        if rprobe["digest"] != results[0]["digest"]:
-            broken.append("nondeterminism: job 0 gave different observation digests in two fresh interpreters")
+        allent = set()
+        for rp in rprobes:
+            if rp["digest"] != results[rp["job"]["idx"]]["digest"]:
+                broken.append(f"nondeterminism: job {rp['job'].get('sub')}#{rp['job'].get('chunk')} gave different "
+                              "observation digests in two fresh interpreters")
+            allent |= set(rp.get("entered", []))
         mech = getattr(mod, "MECHANISM", [])
-        allent = set(rprobe.get("entered", []))
-        missing = [m for m in mech if m not in allent]
-        if missing and getattr(mod, "MECHANISM_ALL_JOBS", False) is False:
-            # functions that vanished from the source are not the harness' fault
-            missing = [m for m in missing if _exists(m)]
-        if missing:
-            broken.append(f"mechanism never entered by job 0: {missing}")
+        missing = [m for m in mech if m not in allent and _exists(m)]
+        if missing and not a.only:
+            broken.append(f"mechanism never entered by the probe jobs: {missing}")
     if broken:
         for b in broken[:5]:
             print("BROKEN:", b)
